@@ -286,8 +286,9 @@ where
             }
         }
     }
-    let mut cache = HashMap::new();
     for a in amounts() {
+        // memoises the amount-text verdict per (text, precision) - for THIS amount only
+        let mut cache = HashMap::new();
         rep.inc("states");
         let q = Q::new(a, u);
         for (fi, flags) in FLAGS.iter().enumerate() {
